@@ -234,6 +234,46 @@ fn run(ctx: &Ctx) -> Part {
             }
         }
     }
+    // write_command / write_raw through the real transports (SPI with staging buffers shorter than the
+    // parameter list, parallel buses), decoded at SPI / pin level
+    {
+        use crate::tr::{TCall, TRig};
+        let mut rigs: Vec<(String, TRig)> = Vec::new();
+        for l in [2usize, 3, 4, 5, 7, 16, 64] {
+            rigs.push((format!("Spi({l})"), TRig::spi(l, 0xEE)));
+        }
+        rigs.push(("Par8".into(), TRig::par8(Board::default_levels())));
+        rigs.push(("Par16".into(), TRig::par16(Board::default_levels())));
+        for (name, t) in rigs.iter_mut() {
+            let mut sends: Vec<(u8, Vec<u8>)> = Vec::new();
+            for &(a, b) in &[(0u16, 0u16), (0x0102, 0xFFFE), (319, 479), (0xFF00, 0x00FF)] {
+                sends.push((0x2A, vec![(a >> 8) as u8, a as u8, (b >> 8) as u8, b as u8]));
+                sends.push((0x2B, vec![(a >> 8) as u8, a as u8, (b >> 8) as u8, b as u8]));
+            }
+            sends.push((0x33, vec![0x01, 0x02, 0x03, 0x04, 0x05, 0x06]));
+            sends.push((0x33, vec![0x80, 0x01, 0x00, 0x03, 0xFF, 0xFE]));
+            sends.push((0x37, vec![0x12, 0x34]));
+            sends.push((0x36, vec![0xA8]));
+            sends.push((0x3A, vec![0x55]));
+            sends.push((0x35, vec![0x01]));
+            sends.push((0x11, vec![]));
+            for len in [0usize, 1, 2, 3, 5, 6, 7, 8, 15, 16, 17, 20] {
+                sends.push((0xB0u8.wrapping_add(len as u8), (0..len).map(|i| (i as u8).wrapping_mul(29).wrapping_add(3)).collect()));
+            }
+            for (op, params) in sends {
+                acc.evaluations += 1;
+                acc.nontrivial += 1;
+                let c = TCall::Cmd { op, args: params.clone() };
+                // through the public extension trait on the real interface
+                let out = t.call_raw(op, &params);
+                let got = t.latched();
+                if !out.is_ok() || got != c.expected() {
+                    acc.violation(viol(ctx, "write_raw(real transport)", format!("{name}: instruction {op:02x} with parameters {params:02x?}: outcome {out:?}, device latched {got:02x?}"), json!([name, op, params])));
+                }
+            }
+            acc.count("real_transport_rigs", 1);
+        }
+    }
     acc.states = 20;
     acc.transitions = acc.evaluations;
     acc.traces = acc.evaluations;
